@@ -24,6 +24,12 @@ def interval(value, previous):
 def main():
     ck = Check("C11")
     ck.do_build()
+    import resource
+    try:
+        lim = 8 << 30
+        resource.setrlimit(resource.RLIMIT_AS, (lim, lim))      # a runaway quantile search fails here instead of taking the machine down
+    except (ValueError, OSError):
+        pass
     rnd = random.Random(ck.seed + 11)
     quick = ck.tier == "quick"
     nq = 200 if quick else 2000
@@ -62,6 +68,19 @@ def main():
                     ck.fail("draw-is-not-the-declared-quantile", dict(inp, quantile=q), f"draw {x!r}, {fam}{tuple(params)} has quantile {want!r}")
                     break
                 draws.append(x)
+            if fam == "schulz_zimm" and total_ref < 1 - 1e-12:
+                # a uniform number above the total mass of the (not normalised) mass function: the draw must still return
+                for q in ((total_ref + 1) / 2, 1 - 1e-9):
+                    ck.evaluations += 1
+                    ck.count("quantile-above-total-mass")
+                    try:
+                        x = float(d.draw_mw(QuantileRNG(q)))
+                        if not math.isfinite(x) or x < 0:
+                            ck.fail("draw-outside-support", dict(inp, quantile=q), f"draw {x}")
+                    except BaseException as exc:
+                        if isinstance(exc, (KeyboardInterrupt, SystemExit)):
+                            raise
+                        ck.fail("draw-raises", dict(inp, quantile=q), f"{type(exc).__name__}: {str(exc)[:120]} (quantile above the total mass {total_ref})")
             if draws and fam != "schulz_zimm":
                 mean = float(np.mean(draws))
                 tol = 0.03 * max(abs(ref.mean), 1.0) + (1.0 if ref.discrete else 0.0)
